@@ -30,6 +30,10 @@ def run(an: Analysis, rep):
     rep.run(purity, an, rep, "R08.P", ["constant_eq", "from_json", "from_code", "normalize"])
     for fn in (r081, r082, r083, r084):
         rep.run(fn, an, rep)
+    from . import c03 as _c03k
+    from .common import SharedRules as _SR8
+    rep.run(_c03k.r033, an, _SR8(rep, "R08.T", "the encoder finds table entries by the key equality is defined by (shared with C03's R03.3): 'equal CodeData encode to identical code objects' - a table "
+                                               "keyed by id() encodes a value and its own JSON round trip differently"), _c03k.table_class(an))
     from . import c12
     rep.run(c12.arg_mutation_rule, an, rep, "R08.M", ["normalize", "to_code", "to_json", "from_code"])
 
